@@ -482,6 +482,14 @@ class Ctx:
         if p.is_term():
             (m, c), = p.t.items()
             if all(s.atoms.inv[a] for a, _ in m): return False
+            # a monomial vanishes iff one of its (not known non-zero) atoms does
+            open_atoms = [a for a, e in m if not s.atoms.inv[a]]
+            if len(m) > 1 or m[0][1] != 1:
+                if any(e < 0 for a, e in m if not s.atoms.inv[a]):
+                    raise Inconclusive('negative power of an atom that may be zero')
+                for a in open_atoms:
+                    if s.decide_zero(Poly.atom(a)): return True
+                return False
         k = p.key()
         for q in s.NE:
             if q.key() == k or (q + p).is_zero(): return False
@@ -662,6 +670,11 @@ class SC:
         if CTX.decide_zero(o.p): raise ZeroDivisionError('division by zero')
         if o.p.is_term():
             (m, c), = o.p.t.items()
+            if all(e > 0 for _, e in m):
+                # a non-zero monomial: each of its atoms is non-zero on this path
+                for a, _ in m:
+                    CTX.atoms.inv[a] = True
+                    if CTX.atoms.conj[a] is not None: CTX.atoms.inv[CTX.atoms.conj[a]] = True
             if all(CTX.atoms.inv[a] for a, _ in m):
                 return SC(s.p * Poly({tuple((a, -e) for a, e in m): c.inv()}))
         # compound divisor: name it with a fresh invertible atom
